@@ -124,8 +124,8 @@ def check(case, ctx):
         fn = getattr(cg.tx, op)
         ok, r = ctx.call(fn, c, k)
         what = f"{op}(k={k})"
-        if case.get("repeat") and not repeat_call(ctx, op, what, fn, (c, k), {}, (ok, r)):
-            return
+        if case.get("repeat"):
+            ok, r = repeat_call(ctx, op, what, fn, (c, k), {}, (ok, r))
         if not ok:
             ctx.violation(op + "_raised", f"{what} raised {r!r}\n{getattr(r, '_tb', '')}")
             return
@@ -190,8 +190,8 @@ def check(case, ctx):
             ctx.count("insert_registers_custom_flop")
         ok, r = ctx.call(cg.tx.insert_registers, c, stages, **kw)
         what = f"insert_registers(num_stages={stages}{', custom flop' if custom else ''})"
-        if case.get("repeat") and not repeat_call(ctx, op, what, cg.tx.insert_registers, (c, stages), kw, (ok, r)):
-            return
+        if case.get("repeat"):
+            ok, r = repeat_call(ctx, op, what, cg.tx.insert_registers, (c, stages), kw, (ok, r))
         if not ok:
             if isinstance(r, ValueError) and "hostile" in case["kind"]:
                 ctx.reject("name_clash")
